@@ -1571,8 +1571,8 @@ def evaluate__function_name(self: XPathFunction, context: ta.ContextType = None)
     if self.context is not None:
         context = self.context
 
-    if isinstance(self[0], XPathFunction):
-        func = self[0]
+    if isinstance(self[0], XPathFunction) and self[0].symbol == 'function':
+        func = self[0]  # an inline function: its name does not depend on the context
     else:
         func = self.get_argument(context)
 
@@ -1585,8 +1585,8 @@ def evaluate__function_name(self: XPathFunction, context: ta.ContextType = None)
 
 @method(function('function-arity', nargs=1, sequence_types=('function(*)', 'xs:integer')))
 def evaluate__function_arity(self: XPathFunction, context: ta.ContextType = None) -> int:
-    if isinstance(self[0], XPathFunction):
-        return self[0].arity
+    if isinstance(self[0], XPathFunction) and self[0].symbol == 'function':
+        return self[0].arity  # an inline function: its arity does not depend on the context
 
     func: XPathFunction
     func = self.get_argument(self.context or context, cls=XPathFunction, required=True)
@@ -1600,9 +1600,8 @@ def select__for_each(self: XPathFunction, context: ta.ContextType = None) \
     if self.context is not None:
         context = self.context
 
-    func = self[1][1] if self[1].symbol == ':' else self[1]
-    if not isinstance(func, XPathFunction):
-        func = self.get_argument(context, index=1, cls=XPathFunction, required=True)
+    # The argument is evaluated: it can be any expression that returns a function item
+    func = self.get_argument(context, index=1, cls=XPathFunction, required=True)
     assert isinstance(func, XPathFunction)
 
     for item in self[0].select(context):
@@ -1617,9 +1616,8 @@ def select__for_each(self: XPathFunction, context: ta.ContextType = None) \
                  sequence_types=('item()*', 'function(item()) as xs:boolean', 'item()*')))
 def select__filter(self: XPathFunction, context: ta.ContextType = None)\
         -> Iterator[ta.ItemType]:
-    func = self[1][1] if self[1].symbol == ':' else self[1]
-    if not isinstance(func, XPathFunction):
-        func = self.get_argument(context, index=1, cls=XPathFunction, required=True)
+    # The argument is evaluated: it can be any expression that returns a function item
+    func = self.get_argument(context, index=1, cls=XPathFunction, required=True)
     assert isinstance(func, XPathFunction)
 
     if func.nargs == 0:
@@ -1638,9 +1636,8 @@ def select__filter(self: XPathFunction, context: ta.ContextType = None)\
                                  'function(item()*, item()) as item()*', 'item()*')))
 def select__fold_left(self: XPathFunction, context: ta.ContextType = None) \
         -> Iterator[ta.ItemType]:
-    func = self[2][1] if self[2].symbol == ':' else self[2]
-    if not isinstance(func, XPathFunction):
-        func = self.get_argument(context, index=2, cls=XPathFunction, required=True)
+    # The argument is evaluated: it can be any expression that returns a function item
+    func = self.get_argument(context, index=2, cls=XPathFunction, required=True)
     assert isinstance(func, XPathFunction)
 
     if func.arity != 2:
@@ -1664,9 +1661,8 @@ def select__fold_left(self: XPathFunction, context: ta.ContextType = None) \
                                  'function(item()*, item()) as item()*', 'item()*')))
 def select__fold_right(self: XPathFunction, context: ta.ContextType = None) \
         -> Iterator[ta.ItemType]:
-    func = self[2][1] if self[2].symbol == ':' else self[2]
-    if not isinstance(func, XPathFunction):
-        func = self.get_argument(context, index=2, cls=XPathFunction, required=True)
+    # The argument is evaluated: it can be any expression that returns a function item
+    func = self.get_argument(context, index=2, cls=XPathFunction, required=True)
     assert isinstance(func, XPathFunction)
 
     if func.arity != 2:
@@ -1692,9 +1688,8 @@ def select__fold_right(self: XPathFunction, context: ta.ContextType = None) \
                                  'function(item(), item()) as item()*', 'item()*')))
 def select__for_each_pair(self: XPathFunction, context: ta.ContextType = None) \
         -> Iterator[ta.ItemType]:
-    func = self[2][1] if self[2].symbol == ':' else self[2]
-    if not isinstance(func, XPathFunction):
-        func = self.get_argument(context, index=2, cls=XPathFunction, required=True)
+    # The argument is evaluated: it can be any expression that returns a function item
+    func = self.get_argument(context, index=2, cls=XPathFunction, required=True)
 
     if not isinstance(func, XPathFunction):
         raise self.error('XPTY0004', "invalid type for 3rd argument {!r}".format(func))
